@@ -250,10 +250,10 @@ func TestVerifH11(t *testing.T) {
 							continue
 						}
 						b := buf[:n]
-						if string(b) == "hello" {
+						if len(b) < 20 { // echoes of the short set-up payloads ("hello", "still-open?", ...)
 							continue
 						}
-						if len(b) < 20 || len(b) > 23 || !bytes.Equal(b, bytes.Repeat([]byte{b[0]}, len(b))) || int(b[0]-'a') != len(b)-20 {
+						if len(b) > 23 || !bytes.Equal(b, bytes.Repeat([]byte{b[0]}, len(b))) || int(b[0]-'a') != len(b)-20 {
 							bad.Add(1)
 						}
 					}
